@@ -436,8 +436,9 @@ func TestGovcReplay(t *testing.T) {
 	expectPanic := safetyKinds[o.Kind]
 	panicked := strings.Contains(log, "REPLAY-PANIC") && !strings.Contains(log, "REPLAY-RETURNED") // a panic inside the function itself
 	switch {
-	case g.incomplete:
-		// some input could not be rebuilt from the model: whatever the run does proves nothing
+	case g.incomplete || o.Kind == "frame" || o.Kind == "inv-init" || o.Kind == "inv-keep" || o.Kind == "dec" || o.Kind == "pre":
+		// some input could not be rebuilt from the model, or the obligation is not about the observable result
+		// (frame conditions, loop invariants, callee preconditions): whatever the run does confirms nothing
 	case expectPanic && panicked:
 		out.Confirmed = true
 	case !expectPanic && strings.Contains(log, "REPLAY-COMPARED mismatches=0") && nCmp > 0 && !g.incomplete:
